@@ -61,6 +61,10 @@ def run_case(case, rec):
     r = random.Random(case['seed'])
     v = case['lmfver']
     res = doc.gen_resource(r, lmfver=v, profile=doc.Profile(max_entries=3, max_synsets=3))
+    for lx in res['lexicons']:
+        if r.random() < 0.2:
+            lx['label'] = ''          # required but may be empty: load() returns '', and so must the scan
+            rec.event('label.empty')
     work = env.mkdtemp('c20')
     mon = SqlMonitor(rec)
     mon.install()
